@@ -5,4 +5,4 @@ G=$(ls -d /root/go/pkg/mod/golang.org/toolchain@v0.0.1-go1.24*.linux-amd64/bin/g
 [ -n "$G" ] || G=go
 export PATH=$(dirname $G):$PATH GOFLAGS=-mod=mod GOPROXY=off GOSUMDB=off GOTOOLCHAIN=local
 mkdir -p /verif/bin
-cd /verif/govc && go build -o /verif/bin/govc .
+cd /verif/govc && go build -o /verif/bin/govc.new . && mv -f /verif/bin/govc.new /verif/bin/govc
